@@ -453,7 +453,9 @@ impl VhostUserFrontend for Frontend {
         buf: &[u8],
     ) -> Result<(VhostUserConfig, VhostUserConfigPayload)> {
         let body = VhostUserConfig::new(offset, size, flags);
-        if !body.is_valid() {
+        // The request carries `size` bytes of payload: refuse a buffer of any other length
+        // before anything is written to the socket.
+        if !body.is_valid() || buf.len() != size as usize {
             return error_code(VhostUserError::InvalidParam);
         }
 
